@@ -8,7 +8,7 @@ head variable, every assignment to a P field or through a P field must be one of
     unlink      *N.P = N.X ;  N.X.P = N.P                        (second under N.X != null)
     push-head   N.X = H ; N.P = &H ; H.P = &N.X ; H = N          (third under H != null)
     insert-after C:  N.X = C.X ; N.X.P = &N.X ; N.P = &C.X ; C.X = N
-    pop-head    H = I.X ; H.P = &H                               (second under H != null)
+    pop-head    H = I.X ; H.P = &H                               (second under H != null; its presence is required)
     mark dequeued   N.P = nullptr
 
 An assignment of another shape leaves a stale or misdirected back pointer: a later unlink then
@@ -101,6 +101,16 @@ def _mk(prop, label, fnre, X, P, heads):
                 ok = pl == '#null' or (a is not None and (is_head(a) or last_field(a) == X))
                 if not ok:
                     run.violation(f['qname'], 'list-node-back:' + base, loc, 'node %s\'s back pointer is set to %s; it must be &head, &<predecessor>.%s or nullptr (dequeued)' % (base, ('&' + a) if a else pl, X))
+            # pop-head completeness: after `H = I.X` the new head's back pointer is re-pointed at &H
+            for n, e in assigns:
+                lhs = e['lhs']; pl = _plain(e.get('rhs'))
+                if not (is_head(lhs) and lhs not in head_alias and pl and last_field(pl) == X): continue
+                run.inst(site(f, G.line(n)), 'pop-head: %s = %s is followed by %s.%s = &%s' % (lhs, pl, lhs, P, lhs), key=(f['qname'], 'pop-fix', G.line(n)))
+                after = G.reach([m for m, _ in G.succ.get(n, [])])
+                fix = [m for m, e2 in assigns if m in after and last_field(e2['lhs']) == P and is_head(e2['lhs'].rsplit('.', 1)[0]) and _addr(e2.get('rhs')) is not None and is_head(_addr(e2.get('rhs')))]
+                if not fix:
+                    run.violation(f['qname'], 'list-pop-nofix:' + last_field(lhs), '%s:%s' % (f['file'], G.line(n)),
+                                  'after popping the head (%s = %s) the new head\'s back pointer is never re-pointed at &%s: it still points into the popped node, so removing the new head later (a deregistration during callback delivery, a cancelled timer) does not unlink it' % (lhs, pl, lhs))
             # unlink completeness: every `*N.P = N.X` is accompanied by the successor fix-up
             for N in unlinked:
                 fix = [e for n, e in assigns if e['lhs'] == '%s.%s.%s' % (N, X, P)]
